@@ -233,8 +233,15 @@ Definition rm_apply (s : sys) (r : nat) : sys * option nat :=
           (s2, Some c)
       end
   end.
-Definition rm_sender (s : sys) (r c : nat) : sys :=
-  set_chan (with_senders s (del_key (senders s) (KRule r))) c (close (chan_at s c)).
+(* msg_senders.remove(&Some(rule)): the Sender of that rule, if it is still in the table, is dropped and its channel closes *)
+Definition chan_of_key (l : list (key * nat)) (k : key) : option nat :=
+  option_map snd (find (fun p => key_eqb (fst p) k) l).
+Definition rm_sender (s : sys) (r : nat) : sys :=
+  let s1 := with_senders s (del_key (senders s) (KRule r)) in
+  match chan_of_key (senders s) (KRule r) with
+  | Some c => set_chan s1 c (close (chan_at s c))
+  | None => s1
+  end.
 
 Definition step (l : label) (s : sys) : option sys :=
   match l with
@@ -392,7 +399,7 @@ Definition step (l : label) (s : sys) : option sys :=
       | Some st, Some (R1 c) =>
           if senders_held s then None else
           match s_rule st with
-          | Some r => let s1 := rm_sender s r c in Some (with_drops (bury s1 sid st) (del (drops s1) sid))
+          | Some r => let s1 := rm_sender s r in Some (with_drops (bury s1 sid st) (del (drops s1) sid))
           | None => None
           end
       | _, _ => None
@@ -411,7 +418,7 @@ Definition step (l : label) (s : sys) : option sys :=
       match nth_error (tasks s) n with
       | Some (r, R1 c) =>
           if senders_held s then None else
-          let s1 := rm_sender s r c in Some (with_tasks s1 (del_nth (tasks s1) n))
+          let s1 := rm_sender s r in Some (with_tasks s1 (del_nth (tasks s1) n))
       | _ => None
       end
   end.
